@@ -7,6 +7,7 @@ if [ -n "$(git status --porcelain --untracked-files=no)" ]; then echo "repo not 
 trap 'git -C /repo checkout -q -- .' EXIT
 git apply "$P" || { echo "patch does not apply"; exit 2; }
 cd /verif
+export VERIF_OUT_BASE=/verif/.cache/mutant-out
 for id in "$@"; do
   out=$(./check $id --tier ${TIER:-quick} 2>&1); rc=$?
   echo "MUTANT-RESULT $id exit=$rc $(echo "$out" | grep -E '^VIOLATION|MACHINERY' | head -1)"
